@@ -9,10 +9,16 @@
                  the default handler, whether the response cache had a reply for the message ID (machine: the
                  receive operation ended [DDup]) and the number of acknowledgements written for the message must
                  equal the observed ones.
-   [pclass]: the classifiers of Spec.v / BwSpec.v / DedupSpec.v on the observed history, Token.Hash = CRC-64/ISO. *)
+   [RcCase ops]  one pooled message through several lives (RecycleModel.v), see below.
+   [TkCase salt pieces obs]  n = length obs calls of the library's token source (message.GetToken), one after the
+                 other, while the system's source of randomness delivers the bytes [ent_gen salt pieces]; per call
+                 the token and the number of bytes read during the call. Must equal [SourceModel.tokens n ent].
+   [pclass]: the classifiers of Spec.v / BwSpec.v / DedupSpec.v / SourceSpec.v on the observed history,
+             Token.Hash = CRC-64/ISO. *)
 From Coq Require Import ZArith NArith List Bool Arith.
 From GoCoap Require Import Base.Cases Base.Interleave Observe.Model Token.Model Token.Spec Token.Run
-  Token.BwModel Token.BwSpec Token.BwRun Token.DedupModel Token.DedupSpec Token.RecycleModel.
+  Token.BwModel Token.BwSpec Token.BwRun Token.DedupModel Token.DedupSpec Token.RecycleModel
+  Token.SourceModel Token.SourceSpec.
 Import ListNotations.
 Open Scope Z_scope.
 
@@ -22,7 +28,8 @@ Inductive rcop :=
 | RcReset
 | RcBody (b : list Z).
 
-Inductive case := Case (evs : list oev) | BwCase (evs : list bev) | DdCase (evs : list dev) | RcCase (ops : list rcop).
+Inductive case := Case (evs : list oev) | BwCase (evs : list bev) | DdCase (evs : list dev) | RcCase (ops : list rcop)
+| TkCase (salt : Z) (pieces : nat) (obs : list (list Z * nat)).
 
 Definition dcfg := DedupModel.dconfig.
 
@@ -189,8 +196,19 @@ Fixpoint rc_class (released : bool) (l : list rcop) : N :=
   | RcBody _ :: q => rc_class false q
   end.
 
+(* ---------- TkCase: the token source (Token/SourceModel.v) ---------- *)
+Fixpoint tk_eqb (a b : list (list Z * nat)) : bool :=
+  match a, b with
+  | [], [] => true
+  | (t, k) :: a', (t', k') :: b' => tok_eqb t t' && Nat.eqb k k' && tk_eqb a' b'
+  | _, _ => false
+  end.
+Definition tk_agrees (salt : Z) (pieces : nat) (obs : list (list Z * nat)) : bool :=
+  tk_eqb (tokens (length obs) (ent_gen salt pieces)) obs.
+
 Definition agrees (c : case) : bool :=
   match c with
+  | TkCase salt pieces obs => tk_agrees salt pieces obs
   | RcCase ops => rc_run fresh ops
   | Case evs => Token.BwRun.agrees (Token.BwRun.Case evs)
   | BwCase evs => Token.BwRun.agrees (Token.BwRun.BwCase evs)
@@ -199,6 +217,7 @@ Definition agrees (c : case) : bool :=
 
 Definition pclass (c : case) : N :=
   match c with
+  | TkCase salt pieces obs => tk_class (ent_gen salt pieces) obs
   | RcCase ops => rc_class true ops
   | Case evs => c03_class hash evs
   | BwCase evs => c03bw_class hash evs
